@@ -9,6 +9,11 @@
 //                               B <id> <hex type name> <num_roots> <nm> m.. <nb> b.. <ng> g..
 //                               L <id of every box that survived, allocation order>
 //                             ids are positions in allocation order at snapshot time.
+//         print(("@@TAG", x))  -> remember the heap object x (by the address of its data) as the next "probed object"
+//         print("@@PREMISE")   -> snapshot only (no collection); for every tagged object that is still in the heap:
+//                                   P <tag> <num_roots> <hex type of x> <hex type of each REACHABLE direct holder>...
+//                                 (holder = a box, reachable from a rooted box, whose real `mark` reaches x and not
+//                                 through another box strictly below it); `P <tag> gone` if x is no longer in the heap
 //       Everything else is printed as usual (`O` records).  One more snapshot is taken after the program
 //       has ended while the Vm is still alive when opts contains `snap_end=1`.
 use std::cell::RefCell;
@@ -20,6 +25,7 @@ use yarel::value::Value;
 use yarel::vm::{self, Vm};
 
 thread_local! {
+    static TAGS: RefCell<Vec<usize>> = RefCell::new(Vec::new());
     static RECS: RefCell<Vec<String>> = RefCell::new(Vec::new());
     static NSNAP: RefCell<usize> = RefCell::new(0);
 }
@@ -61,6 +67,88 @@ fn snapshot_and_collect() {
     RECS.with(|r| r.borrow_mut().push(format!("L {}", live.join(" "))));
 }
 
+fn data_addr(v: &Value) -> Option<usize> {
+    macro_rules! a {
+        ($g:expr) => {
+            Some(&**$g as *const _ as *const u8 as usize)
+        };
+    }
+    match v {
+        Value::ObjString(g) => a!(g),
+        Value::ObjStringIter(g) => a!(g),
+        Value::ObjFunction(g) => a!(g),
+        Value::ObjNative(g) => a!(g),
+        Value::ObjClosure(g) => a!(g),
+        Value::ObjClass(g) => a!(g),
+        Value::ObjInstance(g) => a!(g),
+        Value::ObjBoundMethod(g) => a!(g),
+        Value::ObjBoundNative(g) => a!(g),
+        Value::ObjTuple(g) => a!(g),
+        Value::ObjTupleIter(g) => a!(g),
+        Value::ObjVec(g) => a!(g),
+        Value::ObjVecIter(g) => a!(g),
+        Value::ObjRange(g) => a!(g),
+        Value::ObjRangeIter(g) => a!(g),
+        Value::ObjHashMap(g) => a!(g),
+        Value::ObjModule(g) => a!(g),
+        Value::ObjFiber(g) => a!(g),
+        _ => None,
+    }
+}
+
+fn premise() {
+    let snap = gcv::snapshot();
+    let n = snap.len();
+    let mut ids: HashMap<usize, usize> = HashMap::new();
+    for (i, b) in snap.iter().enumerate() {
+        ids.insert(b.addr, i);
+    }
+    // marks as index sets
+    let marks: Vec<std::collections::HashSet<usize>> = snap
+        .iter()
+        .map(|b| b.marks.iter().filter_map(|a| ids.get(a).copied()).collect())
+        .collect();
+    let mut reachable = vec![false; n];
+    for i in 0..n {
+        if snap[i].num_roots > 0 {
+            reachable[i] = true;
+            for &j in marks[i].iter() {
+                reachable[j] = true;
+            }
+        }
+    }
+    let tags = TAGS.with(|t| t.borrow().clone());
+    for (ti, &da) in tags.iter().enumerate() {
+        // the box whose address is the closest one below the data address
+        let mut best: Option<usize> = None;
+        for (i, b) in snap.iter().enumerate() {
+            if b.addr <= da && da - b.addr <= 64 && best.map_or(true, |j| snap[j].addr < b.addr) {
+                best = Some(i);
+            }
+        }
+        let x = match best {
+            Some(x) => x,
+            None => {
+                RECS.with(|r| r.borrow_mut().push(format!("P {} gone", ti)));
+                continue;
+            }
+        };
+        let mut line = format!("P {} {} {}", ti, snap[x].num_roots, crate::hex(snap[x].kind.as_bytes()));
+        for p in 0..n {
+            if p == x || !reachable[p] || !marks[p].contains(&x) {
+                continue;
+            }
+            let through_lower = marks[p]
+                .iter()
+                .any(|&q| q != x && q != p && marks[q].contains(&x) && !marks[q].contains(&p));
+            if !through_lower {
+                line.push_str(&format!(" {}", crate::hex(snap[p].kind.as_bytes())));
+            }
+        }
+        RECS.with(|r| r.borrow_mut().push(line));
+    }
+}
+
 fn c01_print(vm: &mut Vm, num_args: usize) -> Result<Value, Error> {
     if num_args != 1 {
         return Err(Error::with_message(
@@ -68,8 +156,23 @@ fn c01_print(vm: &mut Vm, num_args: usize) -> Result<Value, Error> {
             "Expected one argument to 'print'.",
         ));
     }
-    let text = format!("{}", vm.native_arg(1));
-    if text == "@@C" {
+    let arg = vm.native_arg(1);
+    if let Value::ObjTuple(t) = arg {
+        if t.elements.len() == 2 {
+            if let Value::ObjString(s) = t.elements[0] {
+                if s.as_str() == "@@TAG" {
+                    if let Some(a) = data_addr(&t.elements[1]) {
+                        TAGS.with(|t| t.borrow_mut().push(a));
+                    }
+                    return Ok(Value::None);
+                }
+            }
+        }
+    }
+    let text = format!("{}", arg);
+    if text == "@@PREMISE" {
+        premise();
+    } else if text == "@@C" {
         let (_, _, n, c) = gcv::stats();
         RECS.with(|r| r.borrow_mut().push(format!("G {} {}", c, n)));
     } else if text == "@@SNAP" {
@@ -95,6 +198,7 @@ fn cmd_c01run(args: &[&str], out: &mut Vec<String>) {
         }
     });
     RECS.with(|r| r.borrow_mut().clear());
+    TAGS.with(|t| t.borrow_mut().clear());
     NSNAP.with(|n| *n.borrow_mut() = 0);
     gcv::set_deref_check(Some(crate::deref_check));
     let mut vm = crate::new_vm();
